@@ -110,7 +110,10 @@ def run_status_stream(ctx, n):
     for i in range(n):
         sb = Sandbox('c16'); sb.git_init_project()
         try:
-            cw = ds.CfgWorld(sb, rng); cw.write()
+            cw = ds.CfgWorld(sb, rng)
+            if rng.random() < 0.3:
+                ds.setup_shared_root(cw, rng)        # two targets with outputs in one directory (per-root figures are per (target, root))
+            cw.write()
             base = sb.root
             for _ in range(rng.randrange(0, 2)):
                 ds.user_edit(rng, cw)
@@ -162,6 +165,9 @@ def run_status_stream(ctx, n):
                 sub = [x for x in data['drift'] if x['target'] == sr['target'] and x.get('root') == sr['root']]
                 if sr['summary'] != cnt(sub):
                     ctx.violation('status summary_by_root is not the count of the listed items of that root', rec)
+            groups = sorted((sr['target'], sr['root']) for sr in data.get('summary_by_root', []))
+            if groups != sorted({(x['target'], x.get('root')) for x in data['drift']}) or len(groups) != len(set(groups)):
+                ctx.violation('summary_by_root does not have exactly one entry per (target, root) with listed items', rec)
             if sum(sum(sr['summary'].values()) for sr in data.get('summary_by_root', [])) != len(data['drift']):
                 ctx.violation('per-root summaries do not add up to the number of items', rec)
             if only:
